@@ -121,6 +121,12 @@ func ModuleEntries() []Entry {
 			if f.Flip("ifunc") {
 				res := "@" + f.Uniq("resolver")
 				f.TopLine("define i32 (i32)* %s() {\n  ret i32 (i32)* null\n}", res)
+				if f.Flip("resolver-expr") {
+					// the resolver is a constant expression over a function of another type
+					r2 := "@" + f.Uniq("resolver8")
+					f.TopLine("define i8* %s() {\n  ret i8* null\n}", r2)
+					res = fmt.Sprintf("bitcast (i8* ()* %s to i32 (i32)* ()*)", r2)
+				}
 				f.TopLine("@%s = %s%sifunc i32 (i32), i32 (i32)* ()* %s", name, f.Alt("linkage", "", "internal ", "weak ", "linkonce_odr "), f.Alt("visibility", "", "hidden ", "protected "), res)
 				return
 			}
